@@ -148,7 +148,7 @@ def rerun(ROOT, BUILD, ENV, path, run_group):
     crate = os.path.join(ROOT, u["crate"])
     if u.get("slice"):
         import slicer
-        slicer.run_unit(unit, u, registry.REPO, os.path.join(BUILD, unit, "gen"))
+        slicer.run_unit(unit, u, registry.REPO, os.path.join(BUILD, u.get("gen_unit", unit), "gen"))
     shutil.copyfile(os.path.join(registry.REPO, "Cargo.lock"), os.path.join(crate, "Cargo.lock"))
     tests = re.findall(r"(/// Test generated for harness.*?\n}\n)", text, re.S)
     os.makedirs(os.path.join(BUILD, unit), exist_ok=True)
